@@ -693,10 +693,9 @@ Fixpoint get_matches_with (fuel : nat) (c : cmd) (toks : list bytes) (st0 : ps) 
       do lr <- parse_loop c toks (mkL PSValuesDone 1 false false) st0;
       let after_sub (name : bytes) (keep_state vaf : bool) (st : ps) (rest : list bytes) : res ps :=
         if is_set s_args_negate_subs c && vaf then
-          (* subcommand_conflict: matcher.arg_ids().map(|id| self.cmd.find(id).unwrap()) *)
-          if forallb (fun i => is_some (find_arg c i)) (arg_ids (mt st))
-          then RErr (mkerr c EArgumentConflict name) st
-          else RPanic 486
+          (* subcommand_conflict: matcher.arg_ids().filter_map(|id| self.cmd.find(id)) -- ids that are
+             not arguments (groups) are skipped (repaired: the former unwrap panicked on a group id) *)
+          RErr (mkerr c EArgumentConflict name) st
         else
           do sc0 <- expect 494 (find_subcommand c name);
           match build_subcommand c (c_name sc0) with
